@@ -1,0 +1,249 @@
+//go:build verif
+
+package nfsv4
+
+import (
+	"unsafe"
+
+	"github.com/buildbarn/bb-remote-execution/pkg/filesystem/virtual"
+	"github.com/buildbarn/go-xdr/pkg/protocols/nfsv4"
+)
+
+// This file only exports raw state of the NFSv4.0 server and of the
+// OpenedFilesPool to external verification tooling. It never decides
+// anything and is only compiled with the "verif" build tag.
+
+// VerifNFS40Confirmation is the raw state of one client confirmation
+// record created through SETCLIENTID.
+type VerifNFS40Confirmation struct {
+	LongID         string
+	ClientVerifier nfsv4.Verifier4
+	ShortClientID  uint64
+	ServerVerifier nfsv4.Verifier4
+	Confirmed      bool
+	HoldCount      int
+	Idle           bool
+	LastSeenNanos  int64
+}
+
+// VerifNFS40OpenOwner is the raw state of one open-owner.
+type VerifNFS40OpenOwner struct {
+	ShortClientID          uint64
+	Key                    string
+	Confirmed              bool
+	LastSeqID              uint32
+	HasLastResponse        bool
+	LastResponseClosedFile bool
+	InTransaction          bool
+	Files                  int
+	Unused                 bool
+	LastUsedNanos          int64
+}
+
+// VerifNFS40OpenOwnerFile is the raw state of one open-owner file.
+type VerifNFS40OpenOwnerFile struct {
+	Other         [nfsv4.NFS4_OTHER_SIZE]byte
+	SeqID         uint32
+	ShortClientID uint64
+	OpenOwner     string
+	Handle        []byte
+	ShareAccess   uint32
+	Readers       int
+	Writers       int
+	LockOwners    int
+}
+
+// VerifNFS40LockOwner is the raw state of one lock-owner.
+type VerifNFS40LockOwner struct {
+	ShortClientID   uint64
+	Key             string
+	LastSeqID       uint32
+	HasLastResponse bool
+	Files           int
+	OwnerPointer    uintptr
+}
+
+// VerifNFS40LockOwnerFile is the raw state of one lock-owner file.
+type VerifNFS40LockOwnerFile struct {
+	Other         [nfsv4.NFS4_OTHER_SIZE]byte
+	SeqID         uint32
+	ShortClientID uint64
+	LockOwner     string
+	OpenOther     [nfsv4.NFS4_OTHER_SIZE]byte
+	Handle        []byte
+	ShareAccess   uint32
+	LockCount     int
+	Index         int
+}
+
+// VerifNFS40Snapshot is a copy of the bookkeeping of an NFSv4.0 server.
+type VerifNFS40Snapshot struct {
+	NowNanos              int64
+	Clients               int
+	ConfirmedClients      int
+	ConfirmationsByKey    int
+	ConfirmationsByShort  int
+	OpenOwnerFilesByOther int
+	LockOwnerFilesByOther int
+	IdleListLength        int
+	UnusedListLength      int
+	Confirmations         []VerifNFS40Confirmation
+	OpenOwners            []VerifNFS40OpenOwner
+	OpenOwnerFiles        []VerifNFS40OpenOwnerFile
+	LockOwners            []VerifNFS40LockOwner
+	LockOwnerFiles        []VerifNFS40LockOwnerFile
+}
+
+// VerifNFS40State returns a snapshot of the state of a program created
+// by NewNFS40Program(). It acquires the program lock directly (without
+// going through enter()), so that taking a snapshot never triggers the
+// removal of expired clients or open-owners.
+func VerifNFS40State(program nfsv4.Nfs4Program) (*VerifNFS40Snapshot, bool) {
+	p, ok := program.(*nfs40Program)
+	if !ok {
+		return nil, false
+	}
+	p.lock.Lock()
+	defer p.lock.Unlock()
+
+	s := &VerifNFS40Snapshot{
+		NowNanos:              p.now.UnixNano(),
+		Clients:               len(p.clientsByLongID),
+		ConfirmationsByKey:    len(p.clientConfirmationsByKey),
+		ConfirmationsByShort:  len(p.clientConfirmationsByShortID),
+		OpenOwnerFilesByOther: len(p.openOwnerFilesByOther),
+		LockOwnerFilesByOther: len(p.lockOwnerFilesByOther),
+	}
+	for ccs := p.idleClientConfirmations.nextIdle; ccs != &p.idleClientConfirmations; ccs = ccs.nextIdle {
+		s.IdleListLength++
+	}
+	for oos := p.unusedOpenOwners.nextUnused; oos != &p.unusedOpenOwners; oos = oos.nextUnused {
+		s.UnusedListLength++
+	}
+	for _, client := range p.clientsByLongID {
+		if client.confirmed != nil {
+			s.ConfirmedClients++
+		}
+		for _, ccs := range client.confirmationsByClientVerifier {
+			confirmed := client.confirmed != nil && client.confirmed.confirmation == ccs
+			s.Confirmations = append(s.Confirmations, VerifNFS40Confirmation{
+				LongID:         client.longID,
+				ClientVerifier: ccs.clientVerifier,
+				ShortClientID:  ccs.key.shortClientID,
+				ServerVerifier: ccs.key.serverVerifier,
+				Confirmed:      confirmed,
+				HoldCount:      ccs.holdCount,
+				Idle:           ccs.nextIdle != nil,
+				LastSeenNanos:  ccs.lastSeen.UnixNano(),
+			})
+		}
+		if cc := client.confirmed; cc != nil {
+			shortID := cc.confirmation.key.shortClientID
+			for _, oos := range cc.openOwners {
+				s.OpenOwners = append(s.OpenOwners, VerifNFS40OpenOwner{
+					ShortClientID:          shortID,
+					Key:                    oos.key,
+					Confirmed:              oos.confirmed,
+					LastSeqID:              oos.lastSeqID,
+					HasLastResponse:        oos.lastResponse != nil,
+					LastResponseClosedFile: oos.lastResponse != nil && oos.lastResponse.closedFile != nil,
+					InTransaction:          oos.currentTransactionWait != nil,
+					Files:                  len(oos.filesByHandle),
+					Unused:                 oos.nextUnused != nil,
+					LastUsedNanos:          oos.lastUsed.UnixNano(),
+				})
+			}
+			for _, los := range cc.lockOwners {
+				s.LockOwners = append(s.LockOwners, VerifNFS40LockOwner{
+					ShortClientID:   shortID,
+					Key:             string(los.owner.Owner),
+					LastSeqID:       los.lastSeqID,
+					HasLastResponse: los.lastResponse != nil,
+					Files:           len(los.files),
+					OwnerPointer:    uintptr(unsafe.Pointer(&los.owner)),
+				})
+			}
+		}
+	}
+	for _, oofs := range p.openOwnerFilesByOther {
+		e := VerifNFS40OpenOwnerFile{
+			Other:       p.externalizeStateID(oofs.stateID).Other,
+			SeqID:       oofs.stateID.seqID,
+			Handle:      oofs.openedFile.GetHandle(),
+			ShareAccess: uint32(oofs.shareAccess),
+			Readers:     int(oofs.shareCount.readers),
+			Writers:     int(oofs.shareCount.writers),
+			LockOwners:  len(oofs.lockOwnerFiles),
+		}
+		if oos := oofs.openOwner; oos != nil {
+			e.OpenOwner = oos.key
+			e.ShortClientID = oos.confirmedClient.confirmation.key.shortClientID
+		}
+		s.OpenOwnerFiles = append(s.OpenOwnerFiles, e)
+	}
+	for _, lofs := range p.lockOwnerFilesByOther {
+		s.LockOwnerFiles = append(s.LockOwnerFiles, VerifNFS40LockOwnerFile{
+			Other:         p.externalizeStateID(lofs.stateID).Other,
+			SeqID:         lofs.stateID.seqID,
+			ShortClientID: lofs.lockOwner.confirmedClient.confirmation.key.shortClientID,
+			LockOwner:     string(lofs.lockOwner.owner.Owner),
+			OpenOther:     p.externalizeStateID(lofs.openOwnerFile.stateID).Other,
+			Handle:        lofs.openOwnerFile.openedFile.GetHandle(),
+			ShareAccess:   uint32(lofs.shareAccess),
+			LockCount:     lofs.lockCount,
+			Index:         lofs.lockOwnerIndex,
+		})
+	}
+	return s, true
+}
+
+// VerifNFS40PoolLock is one entry of the byte-range lock table of an
+// opened file.
+type VerifNFS40PoolLock struct {
+	Start         uint64
+	End           uint64
+	Type          virtual.ByteRangeLockType
+	OwnerPointer  uintptr
+	OwnerClientID uint64
+	OwnerKey      string
+}
+
+// VerifNFS40PoolEntry is the raw state of one opened file.
+type VerifNFS40PoolEntry struct {
+	Handle   []byte
+	UseCount int
+	Locks    []VerifNFS40PoolLock
+}
+
+// VerifNFS40PoolState returns a copy of the contents of an
+// OpenedFilesPool: the opened files, their use counts and their
+// byte-range lock tables in list order.
+func VerifNFS40PoolState(ofp *OpenedFilesPool) []VerifNFS40PoolEntry {
+	ofp.lock.RLock()
+	defer ofp.lock.RUnlock()
+
+	var entries []VerifNFS40PoolEntry
+	for _, of := range ofp.filesByHandle {
+		e := VerifNFS40PoolEntry{
+			Handle:   of.handle,
+			UseCount: int(of.useCount),
+		}
+		of.locksLock.RLock()
+		for _, l := range of.locks.VerifEntries() {
+			pl := VerifNFS40PoolLock{
+				Start:        l.Start,
+				End:          l.End,
+				Type:         l.Type,
+				OwnerPointer: uintptr(unsafe.Pointer(l.Owner)),
+			}
+			if l.Owner != nil {
+				pl.OwnerClientID = l.Owner.Clientid
+				pl.OwnerKey = string(l.Owner.Owner)
+			}
+			e.Locks = append(e.Locks, pl)
+		}
+		of.locksLock.RUnlock()
+		entries = append(entries, e)
+	}
+	return entries
+}
